@@ -41,6 +41,9 @@ BLOCKS = {
                            lambda sy, ds: [sy['LAG_x'] == sy['x'], sy['x'] >= 10, ds[0] * 2 >= sy['x'] * symx.rat(0.9), ds[0] * 2 <= sy['x'] * symx.rat(1.1)]),
     # a search that fails WHILE STEPPING (persistent division by zero when the frozen exogenous level is 0): the solver it initialises must be left untouched on that path too
     'failing-search': ("x = 0.5*LAG_x + D\nz = 1/D\nLAG_x = x(k-1)", {'x': {'x': 0.5, '@self': 0.5}, 'LAG_x': {'x': 1.0}}, ['x', 'LAG_x']),
+    # the same regime with the simulation's tolerance stated through the solver-level override ParameterErrorTolerance (the block line says 1e-2)
+    'within-period-slow-override': ("x = 0.8*x + 0.2*(0.5*LAG_x + D)\nLAG_x = x(k-1)\nErr_Tolerance = 1e-2", {'x': {'x': 0.5, '@iter': (0.8, 1e-3)}, 'LAG_x': {'x': 1.0}}, ['x', 'LAG_x'],
+                                    lambda sy, ds: [sy['LAG_x'] == sy['x'], sy['x'] >= 10, ds[0] * 2 >= sy['x'] * symx.rat(0.9), ds[0] * 2 <= sy['x'] * symx.rat(1.1)], {'ParameterErrorTolerance': 1e-3, 'ParameterInitialSteadyStateStepError': 1e-2}),
     'deco-balance': ("x = 0.5*LAG_x + D\nbal = 2*D - x\nsav = x - LAG_x\nLAG_x = x(k-1)",
                      {'x': {'x': 0.5, '@self': 0.5}, 'LAG_x': {'x': 1.0}, 'bal': {'x': 0.5, '@self': 0.5}, 'sav': {'x': 0.5, '@self': 0.5}}, ['x', 'LAG_x']),
 }
@@ -80,6 +83,8 @@ def case_run(case):
         es = EquationSolver(full, run_equation_reduction=True)
         es.ParameterInitialSteadyStateMaxTime = T
         es.ParameterInitialSteadyStateErrorToler = tol
+        for attr, val in (BLOCKS[name][4] if len(BLOCKS[name]) > 4 else {}).items():
+            setattr(es, attr, val)
         es.Parser.Exogenous.append(('D', [SymReal(dv) for dv in ds]))
         es.ExtractVariableList()
         es.SetInitialConditions()
@@ -189,6 +194,7 @@ vals = {k: float(F(v)) for k, v in %(vals)r.items()}
 text, gain, k0 = BLOCKS[name][:3]
 es = EquationSolver(text + '\\nMaxTime = 3', run_equation_reduction=True)
 es.ParameterInitialSteadyStateMaxTime = T; es.ParameterInitialSteadyStateErrorToler = tol
+for attr, val in (BLOCKS[name][4] if len(BLOCKS[name]) > 4 else {}).items(): setattr(es, attr, val)
 path = [vals['D_%%d' %% i] for i in range(4)]
 es.Parser.Exogenous.append(('D', list(path)))
 es.ExtractVariableList(); es.SetInitialConditions()
